@@ -532,6 +532,12 @@ class C17:
                 a = ("copyfrom", ((p, hg.eg.gen(spec.leaf_type[p], 1, True)),), ra.random() < 0.7)
                 if classify_frozen(hg.model, a) is not None:
                     out.append(a)
+                    if ra.random() < 0.5:
+                        # the same through copy_expr_from with a label rebound to another container of the destination
+                        out.append(("copybind", a[1], ra.randrange(len(spec.roots))))
+            if ra.random() < 0.5:
+                # registering a task object directly (here: one that is registered already) is a replacement too
+                out.append(("rereg", ra.randrange(64)))
             # re-assigning the value a location already holds is still an assignment: its dependants are run again
             plain = [l for l in free if l not in hg.model.defs]
             if plain:
@@ -594,7 +600,23 @@ class C17:
                     count("double_freeze")
                 count("freeze_points")
                 for a in atts:
-                    cls = classify_frozen(ex.model, a)
+                    special = None
+                    if a[0] == "rereg":
+                        tids = sorted(mgr.tasks, key=str)
+                        if not tids:
+                            continue
+                        cls, special = "mutator", (lambda t=mgr.tasks[tids[a[1] % len(tids)]]: mgr.register(t))
+                    elif a[0] == "copybind":
+                        src = World(spec, xd, cfg["salt"])
+                        for p_, a_ in a[1]:
+                            src.mgr.register(xd.tasks.ExprTask(src.ref(tuple(p_)), src.build(a_)))
+                        lab = a[1][0][0][0]
+                        lab2 = spec.roots[a[2] % len(spec.roots)][0]
+                        if lab not in src.mgr.containers or lab2 not in mgr.containers:
+                            continue
+                        cls, special = "mutator", (lambda: mgr.copy_expr_from(src.mgr, lab, bindings={lab: mgr.containers[lab2]}, overwrite=True))
+                    else:
+                        cls = classify_frozen(ex.model, a)
                     if cls is None:
                         continue
                     where = "frozen after %d ops, %s %s" % (p, a[0], path_str(a[1]) if len(a) > 1 and isinstance(a[1], tuple) and a[1] and isinstance(a[1][0], str) else "")
@@ -613,7 +635,9 @@ class C17:
                         ex.check_trace(st, prop)
                         continue
                     before = O.snapshot(w)
-                    if a[0] == "clonechk":
+                    if special is not None:
+                        tr, exc = run_traced(special)
+                    elif a[0] == "clonechk":
                         tr, exc = run_traced(lambda: mgr.clone())
                     else:
                         tr, exc = run_traced(lambda: w.apply(a))
